@@ -4,6 +4,7 @@ package main
 
 import (
 	"errors"
+	"fmt"
 	"math/rand"
 	"servitor/ansi"
 	"servitor/config"
@@ -243,7 +244,47 @@ func genC14(r *rand.Rand, n int, emit func(Op)) {
 
 func genC01misc(r *rand.Rand, n int, emit func(Op)) {
 	hostile := []string{"received invalid status line: HTTP/1.0 \x1b[2J 200\r\n", "\x1b]0;title\x07", "\u009b31mred", "\"\x00\x01\" is not a valid media type", "plain message", "tab\tand\nnewline", "\x7f\x7f", "é漢😀", "\x1b[0m\x1b[1m", "a\u0085b​c"}
+	/* the error texts that quote what a server sent: %s = the quoted bytes */
+	quoting := []string{"received invalid status line: %s", "received invalid status %s", "received %s after redirecting too many times", "response is of invalid type %s", "failed to parse HTTP status line: %s",
+		"failed to parse JSON: invalid character '%s' looking for beginning of value", "%s is not supported in requests, only https", "failed to parse mime type \"mediaType\": \"%s\" is not a valid media type", "Failed to open link: %s", "%s"}
 	for i := 0; i < n; i++ {
+		if i%2 == 1 {
+			/* every control character in turn, raw, alone and as the introducer of a sequence, at the
+			   start, in the middle, at the end, and exactly where the text is cut */
+			c := string(controlPoint(i / 2))
+			seq := c
+			if r.Intn(3) == 0 {
+				seq = sequenceAround(r, c)
+			}
+			w := pick(r, []int{1, 2, 3, 5, 10, 20, 80})
+			var text string
+			switch r.Intn(5) {
+			case 0:
+				text = seq + "tail"
+			case 1:
+				text = "head" + seq
+			case 2:
+				text = "head " + seq + " tail " + seq
+			case 3:
+				/* the character sits right at, before or after the cut */
+				k := w + pick(r, []int{-2, -1, 0, 1})
+				if k < 0 {
+					k = 0
+				}
+				text = strings.Repeat("a", k) + seq + "zz"
+			default:
+				text = seq
+			}
+			switch r.Intn(3) {
+			case 0:
+				emit(Op{"op": "problem", "s": fmt.Sprintf(pick(r, quoting), text)})
+			case 1:
+				emit(Op{"op": "scrub", "s": text})
+			default:
+				emit(Op{"op": "setlength", "s": text, "w": w, "ellipsis": "…"})
+			}
+			continue
+		}
 		switch weighted(r, 3, 2, 2) {
 		case 0:
 			s := pick(r, hostile)
